@@ -5,7 +5,7 @@ from concurrent.futures import ThreadPoolExecutor
 META = dict(
     spec="IPNS",
     level_text=("TLC checks a symbolic (Dolev-Yao) model of the IPNS record and of the verification rules: every record "
-                "reachable by <=2 (quick) / <=4 (thorough) single-field changes from a library-made record satisfies "
+                "reachable by <=2 (quick) / <=3 (thorough) single-field changes from a library-made record satisfies "
                 "AcceptIffValid / Unforgeable / AccessorsReportSigned.  Every adversary sequence of <=2 symbolic steps "
                 "(TLC BFS) is realised on real Ed25519/secp256k1/ECDSA/RSA-2048 records (every byte position of the "
                 "changed field, splices from other records and keys, protobuf re-encodings) and the verdicts of Validate, "
@@ -21,6 +21,8 @@ META = dict(
 PKG = "ipns"
 HARNESS = ["ipns/zz_verif_C25_test.go"]
 TEST = "TestVerifC25"
+ACTIONS = ["TamperData", "DropData", "SwapData", "TamperSig", "DropSig", "SwapSig", "ExtendSig", "TamperKey", "DropKey",
+           "SwapKey", "TamperLegacy", "DropLegacy", "SwapLegacy", "EmptyValue", "SetVty", "SetSig1", "Pad"]
 
 
 def _replay(ctx, binp, behs, name, env, timeout=900):
@@ -52,6 +54,23 @@ def _replay(ctx, binp, behs, name, env, timeout=900):
     return True
 
 
+def _mc(ctx, module, cfg, actions, **kw):
+    """tlc_mc with coverage in the thorough tier.  TLC prints interim coverage reports once a minute in which
+    actions not reached yet show 0; only the LAST report counts, so vlib's zero-detection is bypassed
+    (allow_zero) and redone here on the final figures."""
+    import re
+    cov = not ctx.quick
+    res = ctx.tlc_mc("IPNS", module, cfg, coverage=cov, allow_zero=tuple(actions), **kw)
+    if cov and res.get("ok"):
+        last = {}
+        for m in re.finditer(r"<(\w+) line \d+, col \d+ to line \d+, col \d+ of module \w+>: (\d+):(\d+)", res["out"]):
+            last[m.group(1)] = int(m.group(3))
+        dead = [a for a in actions if last.get(a, 0) == 0]
+        if dead:
+            ctx.broken("vacuous: actions never taken in %s: %s" % (cfg, dead))
+    return res
+
+
 def run(ctx):
     q = ctx.quick
     ctx.assumptions += [
@@ -70,8 +89,8 @@ def run(ctx):
     ctx.specdir("IPNS")   # copy once before the threads start
     import time
     with ThreadPoolExecutor(max_workers=4) as ex:
-        f_mc = ex.submit(ctx.tlc_mc, "IPNS", "MCIPNSValidate.tla", "MCIPNSValidate.cfg" if q else "MCIPNSValidateT4.cfg",
-                         timeout=1500, coverage=not q, workers=4 if q else 8)
+        f_mc = ex.submit(_mc, ctx, "MCIPNSValidate.tla", "MCIPNSValidate.cfg" if q else "MCIPNSValidateT3.cfg", ACTIONS,
+                         timeout=2400, workers=4 if q else 8)
         f_g1 = ex.submit(ctx.tlc_gen, "IPNS", "GenIPNSValidate.tla", "GenIPNSValidate.cfg", timeout=900)
         time.sleep(0.05)
         f_g2 = ex.submit(ctx.tlc_gen, "IPNS", "GenIPNSValidate.tla", "GenIPNSValidateD2q.cfg" if q else "GenIPNSValidateD2.cfg", timeout=1500)
